@@ -274,3 +274,7 @@ pub fn revive_uuid(w: &mut QueryServerWriteTransaction<'_>, u: Uuid) -> Result<(
     let re = crate::event::ReviveRecycledEvent { ident: Identity::from_internal(), filter: f_valid };
     w.revive_recycled(&re)
 }
+
+pub fn internal_identity() -> Identity {
+    Identity::from_internal()
+}
